@@ -1267,6 +1267,11 @@ class PhasedVcfWriter(VcfAugmenter):
                         )
                         else None
                     )
+                    if not self._remove_existing:
+                        # The call is phased anew: the phase information it carried, in either
+                        # encoding, is replaced (a call with both HP and a phased GT/PS is rejected
+                        # by VcfReader as mixed phasing)
+                        self._remove_existing_phasing(record, [sample])
                     self._set_phasing_tags(call, components[pos], phases[pos], haploid_component)
                 elif self._remove_existing or not call.phased:
                     # Unphased
